@@ -353,6 +353,7 @@ type verifReq struct {
 	RawCT      string
 	Header     map[string]string
 	Cookies    map[string]string
+	CookieList [][2]string // ordered (name, value) pairs, duplicates allowed; sent before Cookies
 	BasicUser  string
 	BasicPass  string
 	UseBasic   bool
@@ -399,6 +400,9 @@ func (q verifReq) Build() *http.Request {
 	}
 	for k, v := range q.Header {
 		req.Header.Set(k, v)
+	}
+	for _, kv := range q.CookieList {
+		req.AddCookie(&http.Cookie{Name: kv[0], Value: kv[1]})
 	}
 	for k, v := range q.Cookies {
 		req.AddCookie(&http.Cookie{Name: k, Value: v})
